@@ -31,7 +31,7 @@ type Scraper struct {
 	// HTTPResponse save the http response when RequestTo is called
 	HTTPResponse *http.Response
 	gZipReader   *gzip.Reader
-	reader       io.ReadCloser
+	reader       *wrappedReader
 	ctxCancel    func()
 }
 
@@ -79,16 +79,16 @@ func (s *Scraper) RequestTo() error {
 		return errors.Errorf("server returned HTTP status %s", s.HTTPResponse.Status)
 	}
 
-	s.reader = s.HTTPResponse.Body
+	var reader io.ReadCloser = s.HTTPResponse.Body
 	if s.HTTPResponse.Header.Get("Content-Encoding") == "gzip" {
 		s.gZipReader, err = common.GetGzipReader(s.HTTPResponse.Body)
 		if err != nil {
 			return fmt.Errorf("cannot read gzipped lines with Prometheus exposition format: %w", err)
 		}
-		s.reader = s.gZipReader
+		reader = s.gZipReader
 	}
 
-	s.reader = wrapReader(s.reader, s.writer...)
+	s.reader = wrapReader(reader, s.writer...)
 	return nil
 }
 
@@ -102,11 +102,16 @@ func (s *Scraper) ParseResponse(do func(rows []parser.Row) error) error {
 		}
 	}()
 
-	return parser.ParseStream(s.reader, time.Now().UnixNano()/1e6,
+	err := parser.ParseStream(s.reader, time.Now().UnixNano()/1e6,
 		false,
 		do, func(str string) {
 			s.log.Print(str)
 		})
+	if err == nil && s.reader.err != nil {
+		// the stream parser takes some read failures (connection reset by peer) for the end of the body
+		return errors.Wrap(s.reader.err, "read body")
+	}
+	return err
 }
 
 // StatisticsSeriesResult is the samples count in one scrape
